@@ -10,6 +10,7 @@ import ast
 import z3
 
 from . import values as V
+from .values import lift
 from .core import Ctx, ExcValue, PathEnd, SymRaise
 from .loader import ClassInfo, External, FuncInfo, Module, Repo, Unsupported
 
@@ -425,6 +426,9 @@ class Interp:
         n = seq.length
         spec = self.loop_specs.get(key)
         if spec is None:
+            target_list = _map_loop_target(st)
+            if target_list is not None:
+                return self.exec_map_loop(st, frame, seq, target_list)
             if _assigned_names(st.body) or _has_mutation(st.body):
                 raise Unsupported(f"loop {key} over a symbolic iterable needs a sidecar invariant")
             # stateless loop (its body only checks and raises): summarised exactly.  NoRaise(j) is the disjunction of
@@ -478,6 +482,67 @@ class Interp:
         spec.havoc(self.cx, frame, i)
         for label, f in spec.inv(self.cx, frame, i):
             self.cx.assume(f)
+
+    def exec_map_loop(self, st, frame, seq, lname):
+        """`for x in seq: ...; L.append(e)` where every iteration appends exactly one value computed from its own
+        element only (checked syntactically by _map_loop_target): L += [e(x) for x in seq], summarised exactly."""
+        cx = self.cx
+        cur, ok = frame.lookup(lname)
+        if not ok or not (isinstance(cur, list) or isinstance(cur, V.SymSeq)):
+            raise Unsupported("map loop appending to a non-list")
+
+        class _Rec:
+            def __init__(self):
+                self.items = []
+
+            def sym_getattr(self, interp, name):
+                if name == "append":
+                    return V.SymMethod(lambda interp, v: self.items.append(v))
+                return V.MISSING
+
+        def run_on(elem):
+            f2 = Frame(frame.func, frame.module, parent=frame, cls=frame.cls)
+            f2.qual = getattr(frame, "qual", "?")
+            f2.self_obj = frame.self_obj
+            rec = _Rec()
+            f2.set(lname, rec)
+            self.assign(st.target, elem, f2)
+            self.exec_block(st.body, f2)
+            if len(rec.items) != 1:
+                raise Unsupported("map loop iteration did not append exactly once")
+            v = rec.items[0]
+            return v.value if isinstance(v, V.Opt) else v
+        i0 = cx.fresh_int("mi")
+        cx.assume(z3.And(0 <= i0, i0 < lift(seq.length)))
+        pos0 = cx.pos
+        run_on(seq.get(i0))
+        decs = list(cx.decisions[pos0:cx.pos])
+
+        def pure(i):
+            mark = len(cx.obligations)
+            cx.replay_stack.append({"decs": decs, "pos": 0})
+            cx.muted += 1
+            try:
+                return run_on(seq.get(i))
+            finally:
+                cx.muted -= 1
+                cx.replay_stack.pop()
+                del cx.obligations[mark:]
+        new = V.SymSeq(seq.length, pure)
+        if isinstance(cur, list) and not cur:
+            frame.set(lname, new) if lname in frame.vars else self._set_outer(frame, lname, new)
+        else:
+            r = V.binop(self, ast.Add(), cur, new)
+            frame.set(lname, r) if lname in frame.vars else self._set_outer(frame, lname, r)
+
+    def _set_outer(self, frame, name, v):
+        f = frame
+        while f is not None:
+            if name in f.vars:
+                f.vars[name] = v
+                return
+            f = f.parent
+        raise Unsupported("map loop target not found")
 
     def probe(self, stmts, frame, bind):
         """Condition (over the current symbols) under which `stmts` complete without raising, or None if it cannot
@@ -869,6 +934,75 @@ def _short(key):
     q, n = key
     parts = q.split(".")
     return ".".join(parts[-2:]) + f".loop{n}"
+
+
+def _map_loop_target(st):
+    """Name of the list L if `st` is a for loop whose body (a) only assigns plain local names and calls L.append(e),
+    (b) appends exactly once to L on every control path, (c) reads no local before assigning it in the same iteration
+    (no loop-carried state), (d) does not mention L otherwise; else None."""
+    lists = set()
+
+    def appends(stmts):
+        """set of possible numbers of appends along the paths of stmts, or None if the shape is not allowed"""
+        counts = {0}
+        for s in stmts:
+            if isinstance(s, ast.Assign) and all(isinstance(t, ast.Name) for t in s.targets):
+                c = {0}
+            elif isinstance(s, ast.Expr) and isinstance(s.value, ast.Call) and isinstance(s.value.func, ast.Attribute) \
+                    and s.value.func.attr == "append" and isinstance(s.value.func.value, ast.Name) and len(s.value.args) == 1:
+                lists.add(s.value.func.value.id)
+                c = {1}
+            elif isinstance(s, ast.If):
+                a, b = appends(s.body), appends(s.orelse)
+                if a is None or b is None:
+                    return None
+                c = a | b
+            elif isinstance(s, ast.Pass):
+                c = {0}
+            else:
+                return None
+            counts = {x + y for x in counts for y in c}
+        return counts
+    c = appends(st.body)
+    if c != {1} or len(lists) != 1:
+        return None
+    lname = next(iter(lists))
+    # no other mention of L, no loop-carried locals
+    assigned, seen_assigned = set(), set()
+    for n in ast.walk(ast.Module(body=st.body, type_ignores=[])):
+        if isinstance(n, ast.Assign):
+            for t in n.targets:
+                assigned.add(t.id)
+    mentions = [n for n in ast.walk(ast.Module(body=st.body, type_ignores=[])) if isinstance(n, ast.Name) and n.id == lname]
+    n_app = sum(1 for n in ast.walk(ast.Module(body=st.body, type_ignores=[])) if isinstance(n, ast.Attribute) and n.attr == "append"
+                and isinstance(n.value, ast.Name) and n.value.id == lname)
+    if len(mentions) != n_app or lname in assigned:
+        return None
+
+    def reads_before_write(stmts, defined):
+        for s in stmts:
+            if isinstance(s, ast.Assign):
+                for n in ast.walk(s.value):
+                    if isinstance(n, ast.Name) and n.id in assigned and n.id not in defined:
+                        return True
+                for t in s.targets:
+                    defined = defined | {t.id}
+            elif isinstance(s, ast.If):
+                for n in ast.walk(s.test):
+                    if isinstance(n, ast.Name) and n.id in assigned and n.id not in defined:
+                        return True
+                if reads_before_write(s.body, set(defined)) or reads_before_write(s.orelse, set(defined)):
+                    return True
+                # only names defined on BOTH branches are defined afterwards
+            elif isinstance(s, ast.Expr):
+                for n in ast.walk(s.value):
+                    if isinstance(n, ast.Name) and n.id in assigned and n.id not in defined:
+                        return True
+        return False
+    targets = {n.id for n in ast.walk(st.target) if isinstance(n, ast.Name)}
+    if reads_before_write(st.body, set(targets)):
+        return None
+    return lname
 
 
 def _assigned_names(stmts):
